@@ -151,12 +151,12 @@ var vhExists map[string]bool
 
 type vhFI struct{}
 
-func (vhFI) Name() string               { return "f" }
-func (vhFI) Size() int64                { return 0 }
-func (vhFI) Mode() fs.FileMode          { return 0 }
-func (vhFI) ModTime() time.Time         { return time.Time{} }
-func (vhFI) IsDir() bool                { return false }
-func (vhFI) Sys() any                   { return nil }
+func (vhFI) Name() string       { return "f" }
+func (vhFI) Size() int64        { return 0 }
+func (vhFI) Mode() fs.FileMode  { return 0 }
+func (vhFI) ModTime() time.Time { return time.Time{} }
+func (vhFI) IsDir() bool        { return false }
+func (vhFI) Sys() any           { return nil }
 
 func vhStat(name string) (fs.FileInfo, error) {
 	if vhExists[name] {
